@@ -17,9 +17,16 @@ Init == /\ done = FALSE
 (* the shape of the RSA signature value itself: whatever comes out, or one that begins with a zero octet (one in 256 does), made with a key whose *)
 (* modulus has an odd number of octets (2040 bits) or an even one; and a signer certificate with serial number 0                                *)
 SigInit == /\ done = FALSE
-           /\ \E t \in {"smime", "cms"}, nd \in BOOLEAN, k \in {<<"k2040", "i1", "s1", "any">>, <<"k2040", "i1", "s1", "leadzero">>, <<"k1", "i2", "zero", "any">>, <<"k1", "i2", "s2", "leadzero">>} :
-                cfg = [tool |-> t, flags |-> Opt(TRUE, "-nosmimecap") \o Opt(nd, "-nodetach"), key |-> k[1], issuer |-> k[2], serial |-> k[3],
+           /\ \E t \in {"smime", "cms"}, nd \in BOOLEAN, k \in {<<"k2040", "i1", "s1", "any">>, <<"k2040", "i1", "s1", "leadzero">>, <<"k1", "i2", "zero", "any">>, <<"k1", "i2", "s2", "leadzero">>,
+                                                                   <<"k1", "i1", "s1", "trailzero">>} :
+                /\ (k[4] = "trailzero" => nd /\ t = "cms")      \* (the attached content is sized so that the whole SignedData is a multiple of 8 long)
+                /\ cfg = [tool |-> t, flags |-> Opt(TRUE, "-nosmimecap") \o Opt(nd, "-nodetach"), key |-> k[1], issuer |-> k[2], serial |-> k[3],
                        size |-> 300, shape |-> "bytes", sigshape |-> k[4]]
+(* one SignedData made by two signers (openssl ... -signer a -signer b): it verifies against each of them *)
+TwoInit == /\ done = FALSE
+           /\ \E t \in {"smime", "cms"}, nsc \in BOOLEAN, nd \in BOOLEAN :
+                cfg = [tool |-> t, flags |-> Opt(nsc, "-nosmimecap") \o Opt(nd, "-nodetach"), key |-> "k1", issuer |-> "i1", serial |-> "s1",
+                       size |-> 300, shape |-> "bytes", signers |-> 2]
 Next == ~done /\ done' = TRUE /\ UNCHANGED cfg
 Emit == done => PrintT(ToJson(cfg))
 =============================================================================
